@@ -24,7 +24,7 @@ CONSTANTS Configs,    \* set of client configurations (records, see below)
 
 (***************************************************************************)
 (* cfg: [insecure, sm, tls, cred, ws, wss, skiptls]                        *)
-(*   tls  : "none" | "ca" | "casn" | "caother" | "skip"   (client TLS cfg) *)
+(*   tls  : "none" | "ca" | "casn" | "caother" | "cahost" | "skip"   (client TLS cfg) *)
 (*   cred : "password" | "token"                                           *)
 (*   ws / wss : WebSocket transport (no STARTTLS; secure iff wss:, where   *)
 (*              the certificate is checked by the dial: stage "wsdial")    *)
@@ -44,6 +44,8 @@ CertOK(tls, cert) ==
       [] tls = "ca"      -> cert = "valid"
       [] tls = "casn"    -> cert = "valid"          \* ServerName = the domain, set explicitly
       [] tls = "caother" -> FALSE                   \* ServerName differs from the domain: nothing validates for both
+      [] tls = "cahost"  -> FALSE                   \* the server is reached through a host NAME (the address) that is not the domain, and
+                                                    \* the certificates name that host or other hosts, never the domain: what counts is the domain
       [] tls = "none"    -> FALSE                   \* test CA not in the system roots
       [] OTHER           -> FALSE
 
